@@ -251,6 +251,50 @@ func deadlineBody(readyAtMs int, deadlineMs int) func() {
 	}
 }
 
+// initFlowRearmBody: an init flow is cancelled (what a reset does), cleared, and used again by the next generation:
+// no waiter of the second round may return before its arrivals, all return nil after them.
+func initFlowRearmBody(n int) func() {
+	return func() {
+		f := core.NewInitFlowSynchronization()
+		r := &flowRec{arrived: map[string]int{}}
+		sched.Cur().Values["rec"] = r
+		cErr := fmt.Errorf("cancelled")
+		for round := 0; round < 2; round++ {
+			r.arrived = map[string]int{}
+			r.cancelBegun = false
+			if err := f.SetExternalAgentsRegisterCount(uint16(n)); err != nil {
+				r.failf("1", "flow-setcount", "round %d SetExternalAgentsRegisterCount: %v", round, err)
+			}
+			var ths []*sched.Thread
+			for i := 0; i < n; i++ {
+				ths = append(ths, sched.Go(fmt.Sprintf("agent%d", i), func() {
+					r.arrive("registered", f.ExternalAgentRegistered())
+				}))
+			}
+			ths = append(ths, sched.Go("runtime", func() {
+				r.arrive("restoreReady", f.RuntimeRestoreReady())
+				r.arrive("runtimeReady", f.RuntimeReady())
+			}))
+			r.await("registered", n, f.AwaitExternalAgentsRegistered(), cErr)
+			r.await("restoreReady", 1, f.AwaitRuntimeRestoreReady(), cErr)
+			if err := f.SetAgentsReadyCount(0); err != nil {
+				r.failf("1", "flow-setcount", "round %d SetAgentsReadyCount(0): %v", round, err)
+			}
+			r.await("agentReady", 0, f.AwaitAgentsReady(), cErr)
+			r.await("runtimeReady", 1, f.AwaitRuntimeReady(), cErr)
+			for _, t := range ths {
+				sched.Join(t)
+			}
+			if round == 0 {
+				// the generation is over: reset = cancel, then clear
+				f.CancelWithError(cErr)
+				f.Clear()
+			}
+		}
+		sched.Finish()
+	}
+}
+
 func flowScenarios(tier string) []hx.Scenario {
 	b := 2
 	if tier == "thorough" {
@@ -269,6 +313,9 @@ func flowScenarios(tier string) []hx.Scenario {
 	for n := 0; n <= maxAgents; n++ {
 		add(fmt.Sprintf("initflow/agents=%d", n), initFlowBody(n, false), b)
 		add(fmt.Sprintf("initflow/agents=%d/cancel", n), initFlowBody(n, true), b)
+		if n <= 2 {
+			add(fmt.Sprintf("initflow/agents=%d/round,cancel,clear,round", n), initFlowRearmBody(n), 1)
+		}
 		add(fmt.Sprintf("invokeflow/agents=%d/rounds=2", n), invokeFlowBody(n, 2, false), b)
 		add(fmt.Sprintf("invokeflow/agents=%d/rounds=2/cancel", n), invokeFlowBody(n, 2, true), b)
 		for _, miss := range []string{"response", "runtimeReady", "agent"} {
